@@ -44,6 +44,13 @@ CLAIMED["C04"] = {
     "technique": "contract-based deductive verification: symbolic execution of the real fitting code against a solver contract, optimality transferred by instantiating the minimiser fact at ghost points, z3 NRA + exact polynomial identities",
 }
 
+CLAIMED["C05"] = {
+    "text": "Contracts on the batching helpers (diagonal_stack / concat entry-wise; batched_iteration yields exactly the row slices, zero-padded last batch, and terminates for ALL n >= 1, bs >= 1 on the grid; an integer lemma with symbolic n and bs proves the slices partition [0,n)); for each fitting procedure (gaussian, poisson, excitation, variance minimisation) and every (m, batch_size) with bs in 1..m+2 and 'full': terminates normally, the solves partition the rows, rows are scattered back in order with the padded tail dropped, and - by instantiating the solver's minimiser fact at the stacked solution with block r replaced by a competitor z - every returned row is optimal for its OWN row problem, which is what makes predictions independent of the batch size (unique-optimal-prediction lemma proved over the spec); with batch size 1 the data handed to solve r mention only row r (free-symbol check).",
+    "design_ref": "DESIGN.md section 6 C05",
+    "note": A_COMMON + " cvxpy solver contract as in C04 (exact minimiser; same data => same point). m <= 3 quick / 5 thorough, 2x2 systems, with and without baseline/weights. Equality of intensities X across batch sizes is claimed only through 'optimal for the same row problem' (unique when A' is injective).",
+    "technique": "contract-based deductive verification: contracts on the batching helpers + block-optimality by ghost instantiation of the solver contract; z3 (LIA lemma, NRA), purification to LRA, cvc5",
+}
+
 NOT_APPLICABLE = {}
 
-FIX_COMMITS = ["b2d156a (np.trapz -> trapezoid)", "1caec1a (negative fit targets no longer declared positive cvxpy parameters)"]
+FIX_COMMITS = ["b2d156a (np.trapz -> trapezoid)", "1caec1a (negative fit targets no longer declared positive cvxpy parameters)", "f3b37fa (batched_iteration bs > n)", "b98cd56 (poisson baseline tiling)", "d30d941 (minimize .copy())", "35d91a0 (minimize reshape order)", "b90b02d (minimize padded slack)", "7019c2d (excitation baseline)", "3901923 (excitation per-sample)"]
